@@ -128,7 +128,10 @@ class Method(Variable):  # i.e. TypeBound procedure
                 link_obj = find_in_scope(self.parent.parent, self.link_name, obj_tree)
             else:
                 link_obj = find_in_scope(self.parent, self.link_name, obj_tree)
-            if link_obj is not None and not self.is_linked_from(link_obj):
+            if link_obj is None:
+                # The target was renamed or removed since the last pass
+                self.link_obj = None
+            elif not self.is_linked_from(link_obj):
                 self.link_obj = link_obj
                 # The target of the binding need not be a procedure
                 args_snip = getattr(link_obj, "args_snip", None)
